@@ -48,6 +48,9 @@ class Enc:
             return ['b', bool(x)]
         if isinstance(x, (int, np.integer)):
             return ['i', int(x)]
+        if isinstance(x, np.longdouble):
+            # an extended-precision scalar is not a double: an opaque value identified by its (round-trippable) repr
+            return ['o', self.oid('longdouble:' + repr(x))]
         if isinstance(x, (float, np.floating)):
             return ['f', key(x)]
         if x is None:
@@ -238,7 +241,15 @@ def objective(x):
     return np.sum(x ** 2) + 1.0          # positive: ABC's onlooker loop needs a sign-definite objective (finding e, C03)
 
 
-def make_run(name, sbo, size, seed):
+LD_FACTOR = np.longdouble(1) + np.longdouble(2) ** -60
+
+
+def objective_ld(x):
+    """an extended-precision objective: np.longdouble values that no double equals"""
+    return np.longdouble(np.sum(x ** 2) + 1.0) * LD_FACTOR
+
+
+def make_run(name, sbo, size, seed, ld=False):
     np.random.seed(seed)
     mod = importlib.import_module('opytimizer.optimizers.' + name)
     cls = getattr(mod, name.upper())
@@ -251,7 +262,7 @@ def make_run(name, sbo, size, seed):
         s = HyperSpace(n_agents=n, n_variables=nv, n_dimensions=size[3], n_iterations=T, lower_bound=lb, upper_bound=ub)
     else:
         s = SearchSpace(n_agents=n, n_variables=nv, n_iterations=T, lower_bound=lb, upper_bound=ub)
-    o = Opytimizer(space=s, optimizer=cls(), function=Function(pointer=objective))
+    o = Opytimizer(space=s, optimizer=cls(), function=Function(pointer=objective_ld if ld else objective))
     if seed % 2 == 1:
         # a task started with a pre-evaluation hook that is a closure (not importable by name, hence not picklable): whatever the task
         # puts into its History must still survive save/load
@@ -322,18 +333,21 @@ def run_cases(r, quick):
                 sizes = sizes + [[3, 2, 300]]                       # SCALE: a long history (300 records per series)
             if name == 'hc' and sbo is False and not quick:
                 sizes = sizes + [[130, 3, 4]]                       # SCALE: a large population
-            for size in sizes:
+            plan = [(size, False) for size in sizes]
+            if sbo is False or not quick:
+                plan.append((sizes_q[(oi + 1) % 2], True))              # the same task with an extended-precision (np.longdouble) objective
+            for size, ld in plan:
                 seed = r.randrange(1, 10 ** 6)
                 E = Enc()
                 try:
-                    h = make_run(name, sbo, size, seed)
+                    h = make_run(name, sbo, size, seed, ld)
                 except Exception as ex:                                 # noqa: BLE001
                     skipped.append({'optimizer': name, 'sbo': sbo, 'size': size, 'seed': seed,
                                     'why': '%s: %s' % (type(ex).__name__, ex)})
                     continue
-                run = {'optimizer': name, 'sbo': sbo, 'size': size, 'seed': seed, 'gets': []}
+                run = {'optimizer': name, 'sbo': sbo, 'size': size, 'seed': seed, 'ld': ld, 'gets': []}
                 keys = list(h.__dict__.keys()) + ['no_such_key']
-                for k in keys:
+                for k in ([] if ld else keys):             # (series of extended-precision values: save/load only)
                     for spec in index_specs(h, k, r, not quick):
                         res = call_get(h, k, spec, E)
                         res_oracle = get_oracle(h, k, spec, res, E)
@@ -533,7 +547,7 @@ def replay(doc):
     if kind in ('run-get', 'run-saveload'):
         E = Enc()
         try:
-            h = make_run(doc['optimizer'], doc['sbo'], doc['size'], doc['seed'])
+            h = make_run(doc['optimizer'], doc['sbo'], doc['size'], doc['seed'], bool(doc.get('ld')))
         except Exception as ex:                                         # noqa: BLE001
             return {'fails': True, 'detail': 'run raised %s: %s' % (type(ex).__name__, ex)}
         if kind == 'run-get':
